@@ -4,7 +4,8 @@
    "sig"   every signature with an optional return type out of {INTEGER, REAL, BIT} and up to MaxParams
            parameters over {scalar T, T[n], T[]} x {immutable, mut} (parameter alphabet below; the name of
            a parameter is fixed by its position: x, y_1, z-z, w0).  The signature is grown one parameter at a
-           time; RoundTrip is checked in every state.  For signatures with at most MutantParams
+           time; RoundTrip is checked in every state.  Sizes: return only (no parameter list at all),
+           parameter lists of 1, 2, 3(+) with and without return type; vector length 0.  For signatures with at most MutantParams
            parameters the emitter also lists ParseSig of every single-token deletion and of every
            adjacent transposition of the printed tokens (the parser on near-miss inputs).
 
@@ -25,6 +26,7 @@ CONSTANTS Family, MaxParams, MutantParams, CallLevel
 Names == <<"x", "y_1", "z-z", "w0">>
 ParamTypes == {Scalar("INTEGER"), Scalar("REAL"), Scalar("BIT"),
                FixedVec("REAL", 3), FixedVec("REAL", 2), FixedVec("INTEGER", 3), FixedVec("BIT", 1),
+               FixedVec("REAL", 0),                                       \* degenerate length
                VarVec("REAL"), VarVec("BIT")}
 ParamTypesS == {Scalar("INTEGER"), Scalar("REAL"), FixedVec("REAL", 3), VarVec("BIT")}
 ParamTypes2 == IF CallLevel >= 2 THEN ParamTypesS \cup {FixedVec("REAL", 2), Scalar("BIT")} ELSE ParamTypesS
@@ -74,7 +76,13 @@ RoundTrip == ValidSig(sig) => RoundTripOf(sig)
 \* the parser never accepts a token list that prints differently (canonical form), on the near-miss inputs
 DeletionSeq(toks) == [n \in DOMAIN toks |-> SubSeq(toks, 1, n - 1) \o SubSeq(toks, n + 1, Len(toks))]
 SwapSeq(toks) == [n \in 1..(Len(toks) - 1) |-> [toks EXCEPT ![n] = toks[n + 1], ![n + 1] = toks[n]]]
-MutantSeq(s) == DeletionSeq(PrintSig(s)) \o SwapSeq(PrintSig(s))
+\* degenerate token lists, attached to the return-only signatures: nothing, "()", "T ()", "T T", "( , )"
+Degenerate(s) == IF s.params # <<>> THEN <<>>
+                 ELSE << <<>>, <<TP("LParen"), TP("RParen")>>,
+                         <<TDataType(s.ret.some), TP("LParen"), TP("RParen")>>,
+                         <<TDataType(s.ret.some), TDataType(s.ret.some)>>,
+                         <<TP("LParen"), TP("Comma"), TP("RParen")>> >>
+MutantSeq(s) == DeletionSeq(PrintSig(s)) \o SwapSeq(PrintSig(s)) \o Degenerate(s)
 ParseCanonical == (Family = "sig" /\ ValidSig(sig) /\ Len(sig.params) <= MutantParams) =>
    \A n \in DOMAIN MutantSeq(sig) :
        LET m == MutantSeq(sig)[n] r == ParseSig(m) IN
